@@ -28,6 +28,8 @@ pub struct Next {
     pub tail: bool,
     /// a sink whose close completes with an error
     pub err: bool,
+    /// a sink whose poll_ready / start_send / poll_flush report an error (the caller goes on to close it)
+    pub errmid: bool,
     pub rc: *const RunCtx,
 }
 unsafe impl Send for Next {}
@@ -36,6 +38,9 @@ unsafe impl Send for Next {}
 pub struct Slot(Arc<Mutex<Option<Next>>>, Arc<Mutex<Option<(i64, usize)>>>);
 
 impl Slot {
+    fn errmid(&self) -> bool {
+        self.0.lock().unwrap().as_ref().map(|n| n.errmid).unwrap_or(false)
+    }
     /// Runs the scripted inner actions; returns whether the inner completes now.
     fn run(&self) -> bool {
         self.run2().0
@@ -171,16 +176,19 @@ pub struct SSink(Slot);
 impl Sink<u32> for SSink {
     type Error = ();
     fn poll_ready(self: Pin<&mut Self>, _cx: &mut Context<'_>) -> Poll<Result<(), ()>> {
+        let e = self.0.errmid();
         self.0.run();
-        Poll::Ready(Ok(()))
+        Poll::Ready(if e { Err(()) } else { Ok(()) })
     }
     fn start_send(self: Pin<&mut Self>, _item: u32) -> Result<(), ()> {
+        let e = self.0.errmid();
         self.0.run();
-        Ok(())
+        if e { Err(()) } else { Ok(()) }
     }
     fn poll_flush(self: Pin<&mut Self>, _cx: &mut Context<'_>) -> Poll<Result<(), ()>> {
+        let e = self.0.errmid();
         self.0.run();
-        Poll::Pending
+        if e { Poll::Ready(Err(())) } else { Poll::Pending }
     }
     fn poll_close(self: Pin<&mut Self>, _cx: &mut Context<'_>) -> Poll<Result<(), ()>> {
         let (fin, _, err) = self.0.run2();
@@ -233,7 +241,9 @@ impl Adapter {
     /// One call on the adapter; returns whether it reported completion.
     pub fn poll(&mut self, rc: &RunCtx, t: usize, f: i64, g: i64, inner: &str, fin: bool, tail: bool) -> bool {
         let err = rc.variant(f, 2) == 1;
-        *self.slot.0.lock().unwrap() = Some(Next { t, f, n: g + 1, inner: inner.to_string(), fin, tail, err, rc: rc as *const RunCtx });
+        // every third sink refuses what it is given (errors on the way); the caller closes it all the same
+        let errmid = rc.variant(f + 7, 3) == 1;
+        *self.slot.0.lock().unwrap() = Some(Next { t, f, n: g + 1, inner: inner.to_string(), fin, tail, err, errmid, rc: rc as *const RunCtx });
         let waker = noop_waker();
         let mut cx = Context::from_waker(&waker);
         self.calls += 1;
